@@ -730,6 +730,29 @@ func c07Concurrent(c *core.Ctx, idx int64) {
 				if !bytes.Equal(x.IP, ip) || x.Port != port || !bytes.Equal(pa.IP, ip) || pa.Port != port^1 || !bytes.Equal(ma.IP, ip) || ma.Port != port || int(ec.Code) != 400+n%100 {
 					bad[k] = fmt.Sprintf("decoded %v / %v / %v / %d from a message carrying %x:%d", x, pa, ma, ec.Code, ip, port)
 				}
+				// the checkers too: this goroutine's own key and message, decoded into a buffer without any spare capacity
+				key := rk.Bytes(rk.PickInt([]int{8, 16, 20, 70}))
+				signed := new(stun.Message)
+				_ = signed.Build(stun.BindingRequest, stun.NewTransactionIDSetter(tid), stun.NewSoftware("c07"), stun.MessageIntegrity(key), stun.Fingerprint)
+				exact := &stun.Message{Raw: append(make([]byte, 0, len(signed.Raw)), signed.Raw...)}
+				if err := exact.Decode(); err != nil {
+					bad[k] = err.Error()
+
+					return
+				}
+				for rep := 0; rep < 3; rep++ {
+					if err := stun.MessageIntegrity(key).Check(exact); err != nil {
+						bad[k] = fmt.Sprintf("a correctly signed message is rejected under its own key: %v", err)
+					}
+					if err := stun.Fingerprint.Check(exact); err != nil {
+						bad[k] = fmt.Sprintf("a correctly fingerprinted message is rejected: %v", err)
+					}
+				}
+				wrong := append([]byte(nil), key...)
+				wrong[0] ^= 1
+				if stun.MessageIntegrity(wrong).Check(exact) == nil {
+					bad[k] = "a message verifies under a key that differs in one bit"
+				}
 			}
 		}(k)
 	}
